@@ -937,6 +937,10 @@ REFINED = [
     "Binary / Octal / LowerHex / UpperHex of FBig (base 2: `b` and the hexadecimal form 0xh.hhp±e; base 8: `o`; base 16: `h`) and Debug of "
     "FBig and Repr (plain and pretty, incl. the DoubleEnd integer form `123..456 (digits: N, bits: M)`): mirrored (fmtSciG, debugFBig, "
     "debugRepr) and compared with the real code on every run, all fill/alignment/sign/zero flags",
+    "Debug of finite Repr / FBig over C07's kernel (round 8, link by import of Props/C07Debug): the significand printer debugInt of the float Debug forms = "
+    "C07's debugSpec = the text the mirrored DoubleEnd::fmt yields (every even word size >= 8, every admissible first guess of log_word_base); `{:?}` is "
+    "`T * B ^ e` / `T * B ^ e (prec: p)`, the pretty significand field is the `{:#?}` DoubleEnd text in base 10 and `T (N bits|digits)` otherwise; T is all "
+    "decimal digits below 2^(2W) and the true first / last dpw digits around `..` beyond (debug_significand_is_double_end, debug_float_forms)",
 ]
 FRONTIER = [
     "str::parse::<isize>() of the scale (parseIsize) is shared by model and grammar; since round 7 the definition is proved equal to the documented "
@@ -958,8 +962,11 @@ FRONTIER = [
     "executable model can carry it short of C11's mirrored exp/ln at the working precision convert_base chooses (not attempted)",
     "Repr::new normalisation, repr_round, split_digits, round_fract, round_ratio: builder-float's models and theorems (C03/C10) are reused by import",
     "log2_bounds (f32 estimate): no longer on any path of C08 since fix fa3b7b8 (with_base uses the exact integer logarithm); nothing left to prove here",
-    "Debug of finite values (DoubleEnd integer form, pretty struct form) is mirrored and compared on every run; there is no theorem about it "
-    "(the property makes no claim about Debug text; C07 owns the DoubleEnd digits theorem)",
+    "Debug of finite values: since round 8 the integer inside the float Debug forms (debugInt) is proved equal to C07's debugSpec, hence to the text "
+    "the word-level mirror of DoubleEnd::fmt yields (C07 debug_text, by import), and debugRepr / debugFBig are stated over that text "
+    "(debug_significand_is_double_end, debug_float_forms). What stays run-time only: that the struct layout around the significand (` * B ^ e`, "
+    "` (prec: p)`, field names and indentation of the pretty form, written through core::fmt's debug_struct) is what the real code prints — mirrored and "
+    "compared on every run; the property text makes no claim about Debug",
     "clause review (round 5): every clause of the property text has a theorem except (a) base conversion through ln/exp (above), (b) `to_decimal` / "
     "`to_binary` — call forms of with_base::<10> / <2> (with_base_contract), compared with with_base by the harness on every run, (c) huge source precisions in with_base between bases that are not "
     "powers of one another are not driven (B^p is evaluated: AllocTooMuch), (d) printing/parsing at exponents outside the "
@@ -977,7 +984,8 @@ THEOREMS = ["Dashu.Props.C08." + t for t in [
     "round_int_meets_mode_spec", "mode_spec_unique", "display_spec_rounds_like_model", "with_precision_digits",
     "scale_markers_regenerated", "fmt_trait_table_regenerated", "convert_base_same_base",
     "padded_scientific_print_parse", "with_base_contract", "display_text_is_spec", "display_text_is_spec_normalised",
-    "ilog_exact_regenerated", "with_base_precision_regenerated", "parse_isize_spec", "scale_split_spec"]]
+    "ilog_exact_regenerated", "with_base_precision_regenerated", "parse_isize_spec", "scale_split_spec",
+    "debug_significand_is_double_end", "debug_float_forms"]]
 EXPLANATION = ("Partial. Proved for all bases, modes, precisions and operands: the three exact-evaluation branches of base conversion "
                "round the exact value (contract of C03: exact iff representable, else < 1 ulp on the mode's side, truthful flag); "
                "the documented with_base precision; exactness of the f32/f64 import; the literal parser equals the documented grammar on every byte "
@@ -1018,7 +1026,9 @@ LEVEL_TEXT = ("PARTIAL. Machine-checked Lean 4 theorems, for every base >= 2, mo
               "equals the displaySpec text; the "
               "scale-marker table of the parser and the marker table of the formatting traits are regenerated from the source and proved equal to "
               "the model's, likewise ilog_exact (float/src/utils.rs) and the precision decision of FBig::with_base (Tie A). "
-              "Not proved but executed against the real code on every run: Debug, the printing of infinities (all traits). The large-exponent branch (ln/exp) is checked per case with exact "
+              "Debug of finite values: the significand inside the Debug forms is proved to be the DoubleEnd text of C07's mirrored code (all digits below two words, "
+              "true leading / trailing digits around `..` beyond), and the forms are stated over it; the struct layout around it is a mirrored model. "
+              "Not proved but executed against the real code on every run: the layout of Debug, the printing of infinities (all traits). The large-exponent branch (ln/exp) is checked per case with exact "
               "rational arithmetic; it violates the contract on representable inputs and at small precisions (recorded findings). The theorems are about "
               "unbounded exponents; exponent arithmetic at the isize limits (parser, scientific formatter) is compared with the real code on every run "
               "(directed classes at isize::MIN/MAX); so are conversions between two bases near the top of the Word range (2^63+1 and 2, 2^32+1 and 2^32, ...), "
